@@ -76,6 +76,13 @@ func getMsgKey(q *dns.Msg) string {
 	return utils.BytesToStringUnsafe(buf)
 }
 
+// answersQuestion reports whether r is a reply to question. A response that
+// was put into the query context for another question (e.g. before a plugin
+// rewrote the query name or type) must not be stored under this question's key.
+func answersQuestion(r *dns.Msg, question dns.Question) bool {
+	return len(r.Question) == 1 && r.Question[0] == question
+}
+
 type item struct {
 	resp           *dns.Msg
 	storedTime     time.Time
